@@ -16,7 +16,7 @@ use bp7::flags::BlockControlFlags;
 use bp7::primary::PrimaryBlock;
 use bp7::security::*;
 use bp7::{Bundle, EndpointID};
-use std::convert::TryInto;
+use std::convert::{TryFrom, TryInto};
 use std::io::Write;
 
 extern "C" {
@@ -142,8 +142,10 @@ fn opt_pair_b(t: &mut Toks) -> Result<Option<(u8, Vec<u8>)>, &'static str> {
     Ok(Some((id, v)))
 }
 
-/// BIB x<key> <scope flags> <ctx flags> <source eid> (NOPAR | PAR <sha> <wrapped key> <scope>) <bib number> <bib flags>
-///     <bundle> T <target numbers...> I <block numbers an IPPT is built for, in this order...>
+/// BIB x<key> {RESIGN x<old key> <k> <number>*k}.. <scope flags> <ctx flags> <source eid> (NOPAR | PAR <sha> <wrapped key> <scope>)
+///     <bib number> <bib flags> <bundle> T <target numbers...> I <block numbers an IPPT is built for, in this order...>
+/// Each RESIGN round is an EARLIER `compute_hmac(old key, IPPTs of the listed block numbers)` on the SAME IntegrityBlock (key
+/// rotation / re-signing); rounds run in the order written, then the final `compute_hmac(key, I list)`.
 ///  -> OK IPPT <k> x.. .. RES <k> (<n> (<id> x<mac>)*)* ASB x.. BLK x.. BUNDLE x..  |  BUILDERR | NOBLOCK | PANIC
 /// where <sha>/<scope> ::= - | <id> <value>,  <wrapped key> ::= - | <id> x<bytes>.
 /// The glue between the library calls is the one of tests/security_tests.rs (RFC 9173 A.1):
@@ -156,6 +158,30 @@ pub fn bib(args: &[&str]) -> String {
         Some(k) => k,
         None => return "BADCASE".into(),
     };
+    let mut rounds: Vec<(Vec<u8>, Vec<u64>)> = Vec::new();
+    let mut rounds_skip = false;
+    while t.peek() == Some("RESIGN") {
+        t.next();
+        let k = match t.bytes() {
+            Some(k) => k,
+            None => return "BADCASE".into(),
+        };
+        let n = match t.n() {
+            Some(n) if n < 1000 => n,
+            _ => return "BADCASE".into(),
+        };
+        let mut nums = Vec::new();
+        for _ in 0..n {
+            match t.n() {
+                Some(x) => match u64::try_from(x) {
+                    Ok(x) => nums.push(x),
+                    Err(_) => rounds_skip = true,
+                },
+                None => return "BADCASE".into(),
+            }
+        }
+        rounds.push((k, nums));
+    }
     let flags = match u16_of(&mut t) {
         Some(f) => f,
         None => return "BADCASE".into(),
@@ -228,6 +254,16 @@ pub fn bib(args: &[&str]) -> String {
         Ok(k) => k,
         Err(_) => return "SKIP".into(),
     };
+    if rounds_skip {
+        return "SKIP".into();
+    }
+    let mut rounds16: Vec<([u8; 16], Vec<u64>)> = Vec::new();
+    for (k, nums) in rounds {
+        match <[u8; 16]>::try_from(k.as_slice()) {
+            Ok(k16) => rounds16.push((k16, nums)),
+            Err(_) => return "SKIP".into(),
+        }
+    }
 
     let sh: SecurityBlockHeader = (INTEGRITY_BLOCK, bib_num, bib_flags);
     let primary = Some(bundle.primary.clone());
@@ -237,6 +273,17 @@ pub fn bib(args: &[&str]) -> String {
             Some(c) => ippts.push((*n, make_ippt(flags, &primary, &Some(sh), c))),
             None => return "NOBLOCK".into(),
         }
+    }
+    let mut old_ippts: Vec<([u8; 16], Vec<(u64, Vec<u8>)>)> = Vec::new();
+    for (k16, nums) in &rounds16 {
+        let mut l: Vec<(u64, Vec<u8>)> = Vec::new();
+        for n in nums {
+            match bundle.canonicals.iter().find(|c| c.block_number == *n) {
+                Some(c) => l.push((*n, make_ippt(flags, &primary, &Some(sh), c))),
+                None => return "NOBLOCK".into(),
+            }
+        }
+        old_ippts.push((*k16, l));
     }
     let mut builder = IntegrityBlockBuilder::new()
         .security_targets(targets)
@@ -249,6 +296,12 @@ pub fn bib(args: &[&str]) -> String {
         Ok(ib) => ib,
         Err(_) => return "BUILDERR".into(),
     };
+    // earlier signatures on the same block, oldest first
+    for (k16, l) in &old_ippts {
+        let list: Vec<(u64, &Vec<u8>)> = l.iter().map(|(n, b)| (*n, b)).collect();
+        let _q = Quiet::new();
+        ib.compute_hmac(*k16, list);
+    }
     let list: Vec<(u64, &Vec<u8>)> = ippts.iter().map(|(n, b)| (*n, b)).collect();
     {
         let _q = Quiet::new();
